@@ -93,6 +93,8 @@ func runC12(c *Ctx, tier string) {
 	runLakeErrDiscipline(c, "C12-E1")
 	runLakeErrNotConverted(c, "C12-E2")
 	runPatchRefusalIsFatal(c, "C12-P6")
+	c.Rule("C12-M1", "the snapshots that commit validation reads are not mutated (= C13-M1): a cached ancestor snapshot aliased with a descendant's makes Branch.Delete / merge validate against the wrong state and acknowledge commits that cannot be replayed")
+	c.borrow(func(t *Ctx) { runC13(t, "quick") }, map[string]string{"C13-M1": "C12-M1"})
 	c.Rule("C12-W1", "single commit point: journal entries are written only by Queue.CommitAt through PutIfNotExists; CommitAt is called only by journal.Store.commit and Queue.Commit; PutIfNotExists only by CommitAt and the lake-magic writer")
 	c.Rule("C12-P1", "journal.Store.commit: the position passed to CommitAt is the s.at read in the same read-locked section in which the constraint ran, after a load in the same iteration; a lost race re-loads and re-checks; any other error is returned; success invalidates s.at")
 	c.Rule("C12-P2", "optimistic branch commit: LookupByName -> create -> commits.Put -> branches.Update with a non-nil constraint comparing against the parent captured before config.Commit is overwritten; a failed Update removes the commit object on every path")
